@@ -226,6 +226,10 @@ def gen_cases(c, level, focus=None):
         k = rng.choice([0, 0, 3, 5])
         opts = {'direct': True} if (d in ('random', 'quasi_random', 'grid') and rng.random() < 0.3) else {}
         cases.append(designer_case(d, s, spec, gen_prefix(rng, spec, k), opts))
+        if d in ('eagle', 'quasi_random', 'nsga2', 'grid') and (pi == 0 or rng.random() < 0.5):
+          # the same run with the designer persisted and restored into a new instance after every
+          # round (the service's per-operation policy): the restore path must not read the ambient
+          cases.append(dict(designer_case(d, s, spec, gen_prefix(rng, spec, k), opts), restore=True))
     # multi-objective history for NSGA-II
     if d == 'nsga2':
       spec2 = gen_problem(rng, n_metrics=2)
